@@ -317,8 +317,8 @@ register("C05", lean_modules=["FsProofs.Properties.ShapesC05", "FsProofs.Propert
          nontrivial=has_pits_or_multi, tags=tags_flow,
          rule="multi router x exponents {0, .5, 1, 1.1, 2, 8}, exponent changed between updates, flooded fields; non-trivial = some node has several receivers",
          trusted_base=FLOW_TB + ["weights theorem is over an ordered field with an abstract pow satisfying pow 1 = 1, 0 <= pow x"])
-register("C06", lean_modules=["FsProofs.Properties.ShapesC06", 'FsModel.Donors', 'FsModel.Dfs', 'FsProofs.DfsPerm', 'FsModel.Bfs', 'FsProofs.Properties.C06', 'FsProofs.Properties.C06Bfs', 'FsProofs.Properties.C06Kahn', 'FsProofs.Properties.C06Graphs', 'FsProofs.Properties.ImplCheck', 'FsProofs.Properties.Closed'],
-         theorems=["Fs.Shapes.source_shape_C06", 'Fs.Closed.raster_C06_single', 'Fs.Closed.raster_C06_multi', 'Fs.ImplCheck.checkC06_sound', 'Fs.ImplCheck.checkDfs_iff', 'Fs.ImplCheck.checkBfs_iff', 'Fs.C06.single_donors_inverse', 'Fs.C06.single_dfs', 'Fs.C06.singleRouter_bfs', 'Fs.C06.multi_donors_inverse', 'Fs.C06.multi_dfs', 'Fs.C06.multi_bfs',
+register("C06", lean_modules=["FsProofs.Properties.ClosedC06", "FsProofs.Properties.ShapesC06", 'FsModel.Donors', 'FsModel.Dfs', 'FsProofs.DfsPerm', 'FsModel.Bfs', 'FsProofs.Properties.C06', 'FsProofs.Properties.C06Bfs', 'FsProofs.Properties.C06Kahn', 'FsProofs.Properties.C06Graphs', 'FsProofs.Properties.ImplCheck', 'FsProofs.Properties.Closed'],
+         theorems=["Fs.C06.resolve_C06_singleRouter", "Fs.C06.resolve_bfs_eq", "Fs.Closed.raster_C06_resolve", "Fs.Closed.mesh_C06_resolve", "Fs.Closed.profile_C06_resolve", "Fs.Shapes.source_shape_C06", 'Fs.Closed.raster_C06_single', 'Fs.Closed.raster_C06_multi', 'Fs.ImplCheck.checkC06_sound', 'Fs.ImplCheck.checkDfs_iff', 'Fs.ImplCheck.checkBfs_iff', 'Fs.C06.single_donors_inverse', 'Fs.C06.single_dfs', 'Fs.C06.singleRouter_bfs', 'Fs.C06.multi_donors_inverse', 'Fs.C06.multi_dfs', 'Fs.C06.multi_bfs',
                    'Fs.C06.mem_donors', 'Fs.C06.mem_donors_ne', 'Fs.C06.donors_nodup', 'Fs.C06.dfs_perm', 'Fs.C06.dfs_recv_before', 'Fs.C06.single_bfs', 'Fs.C06.bfs_levels_spec', 'Fs.C06.kahn_spec',
                    'Fs.C06.singleRouter_graph', 'Fs.C06.multi_kdag', 'Fs.C06.multi_dag',
                    'Fs.Donors.mem_donors', 'Fs.Donors.donors_nodup', 'Fs.Dfs.dfs_recv_before', 'Fs.Dfs.dfs_perm', 'Fs.Bfs.next_level_receivers'], gen=lambda r, t: gen_any_ops(r, t), oracles=[oracle.c06], sections={"dcount", "donors", "dfs", "bfs", "levels", "rcount", "recv"},
@@ -637,7 +637,7 @@ _lvl("C05", "proof",
      "Theorems about the executed definitions Fs.Flow.multiRow / multiWeights: terminal_row, pit_row, receivers_row (for ANY scalar instance: base-level/masked nodes and nodes without a strictly lower unmasked neighbour are their own single receiver; otherwise the receivers are exactly the unmasked strictly lower neighbours, once per neighbour slot, in neighbour order, with the grid distances), weights_spec (over any linearly ordered field and an abstract pow with pow 1 p = 1 and 0 <= pow x p: for positive slopes the weights are non-negative, sum to one and equal pow(slope/max slope, p) / c for one positive c, i.e. are proportional to slope^p for a multiplicative pow). Positivity of pow for tiny arguments is deliberately not assumed (D3). The Float instance is compared bit for bit; exponent changes between updates and flooded fields are in the generator. multiRouter_weights / multiRouter_row_cases (C03E2E.lean): END-TO-END on the executed multiRouter over an ordered field with positive neighbour distances: a routed node's weights have the length of its receiver row, are non-negative, sum to one and are pow(slope/max slope, p)/c; terminal rows carry weight [0].",
      "Lean 4 proofs on the executed definitions (list lemmas; ordered-field arithmetic with abstract pow) + bit-exact correspondence + exact-rational weight oracle")
 _lvl("C06", "proof",
-     "END-TO-END theorems on the graphs the executed routers build (any topology in range, any elevations over a strict weak order): single router (both variants): single_donors_inverse (for distinct nodes the donor table is exactly the inverse of the receiver table; donors_nodup), single_dfs (bottom-up order is a permutation of all nodes, every node after its receiver), singleRouter_bfs (breadth-first order is a permutation in non-empty levels, every receiver in a strictly earlier level); the same for ANY graph assembled from a receiver forest (SingleGraph: mem_donors, dfs_perm, dfs_recv_before, single_bfs) - which is how the spanning-tree resolver rebuilds its tables; multi router: multi_donors_inverse (inverse with multiplicity: d is listed among the donors of r once per slot of d's row equal to r), multi_dfs (Kahn-style top-down order reversed: permutation, every node after each of its receivers; kahn_spec), multi_bfs (bfs_levels_spec). Snapshot copies are C16. That the spanning-tree resolver's receiver table is a forest is tied by correspondence + oracle (not proved). Certificate: the model driver runs checkC06 on the donors / dfs / bfs tables REPORTED BY THE C++ at every update (soundness checkC06_sound; checkDfs_iff / checkBfs_iff: the checkers are exact). raster_C06_single / raster_C06_multi: Closed corollaries (Closed.lean): the topology hypotheses (neighbours in range, row width <= n_neighbors_max, symmetry with multiplicity, positive distances, slope-above-lowest on neighbour slots) are DISCHARGED for the topology `rasterTopo` the executed raster model reports, for every raster with >= 2 nodes per axis and positive spacing over any ordered field - so the statements below hold for every such raster, mask, base-level set and elevation with no hypothesis about the grid left; all their hypotheses are shown satisfiable on a concrete 3x3 instance over Q (non-vacuity).",
+     "END-TO-END theorems on the graphs the executed routers build (any topology in range, any elevations over a strict weak order): single router (both variants): single_donors_inverse (for distinct nodes the donor table is exactly the inverse of the receiver table; donors_nodup), single_dfs (bottom-up order is a permutation of all nodes, every node after its receiver), singleRouter_bfs (breadth-first order is a permutation in non-empty levels, every receiver in a strictly earlier level); the same for ANY graph assembled from a receiver forest (SingleGraph: mem_donors, dfs_perm, dfs_recv_before, single_bfs) - which is how the spanning-tree resolver rebuilds its tables; multi router: multi_donors_inverse (inverse with multiplicity: d is listed among the donors of r once per slot of d's row equal to r), multi_dfs (Kahn-style top-down order reversed: permutation, every node after each of its receivers; kahn_spec), multi_bfs (bfs_levels_spec). Snapshot copies are C16. That the spanning-tree resolver's receiver table is a forest is tied by correspondence + oracle (not proved). Certificate: the model driver runs checkC06 on the donors / dfs / bfs tables REPORTED BY THE C++ at every update (soundness checkC06_sound; checkDfs_iff / checkBfs_iff: the checkers are exact). raster_C06_single / raster_C06_multi: Closed corollaries (Closed.lean): the topology hypotheses (neighbours in range, row width <= n_neighbors_max, symmetry with multiplicity, positive distances, slope-above-lowest on neighbour slots) are DISCHARGED for the topology `rasterTopo` the executed raster model reports, for every raster with >= 2 nodes per axis and positive spacing over any ordered field - so the statements below hold for every such raster, mask, base-level set and elevation with no hypothesis about the grid left; all their hypotheses are shown satisfiable on a concrete 3x3 instance over Q (non-vacuity). AFTER THE SINK RESOLVER (C06Resolve.lean, ClosedC06.lean): the spanning-tree resolver rewrites the receiver table and rebuilds donors and both orders; resolve_C06_singleRouter proves the same three clauses for the graph it returns (Kruskal, carve or basic) - that the rewritten table is still a forest is clause (b) of resolve_c01_singleRouter - and raster_/mesh_/profile_C06_resolve close it over the executed grid topologies with non-vacuity instances.",
      "Lean 4 stack/queue/Kahn-counter invariant proofs, composed with the router theorems, on the executed definitions + bit-exact correspondence + table-consistency oracle")
 _lvl("C07", "proof",
      "Theorems about the executed grid model with the tables regenerated from raster_grid.hpp / profile_grid.hpp on every run, for EVERY raster with >= 2 nodes per axis and < 2^63 nodes, every connectivity, loop flags and node: rasterNbIdx_eq_geom (the neighbour indices computed through node code, count table, offset/argument tables and size_t wrap-around arithmetic are exactly the row-major indices of the geometric one-step neighbours - stay inside, wrap only across looped borders, drop otherwise - in the same order), rasterNbIdx_range / rasterNbIdx_length (every neighbour is a node; count accessor = list length <= n_neighbors_max), rasterNbIdx_count_symm / _mem_symm (the relation is symmetric WITH multiplicity - a neighbour met twice across a looped axis of length 2 is met twice from the other side), rasterNbIdx_not_self, rasterNbDist_eq_geom + stepDist_exact / stepDist_field (reported distances are the step length sqrt(dy^2), sqrt(dx^2) or sqrt(dy^2+dx^2) of the geometric offset, in exact arithmetic) and rasterNb_dist_symm (the reverse step has the same distance); the same for the profile grid (profileNbIdx_*); table obligations by decide over the regenerated constants (count_table_spec, codedTuples_spec, offs_valid, offs_neg_perm). Statuses of neighbours, the struct/(row,col) views and cache transparency (cache on/off, shuffled and repeated queries, out-parameter overloads with reused buffers) are tied by the every-accessor correspondence + geometric oracle; rounding of the distances by the bit-exact comparison.",
